@@ -12,7 +12,9 @@ Tie (this file):
       after every read and after every call, literal_labels of touched labels, memo size) compared with
       the model `c03.run`;
   (2) sub-collections of a directory vs the whole directory (TagDatabase);
-  (3) two `collect` runs in two subprocesses with different PYTHONHASHSEED: byte-identical JSON.
+  (3) two `collect` runs in two subprocesses with different PYTHONHASHSEED: byte-identical JSON;
+  (4) several collections made one after the other in ONE process (directory A then B importing a module name only A
+      has; full collection then glob sub-collections; both orders), each compared with a fresh process.
 Exercised only: SQLite, interpreter hash randomisation.
 """
 import ast
@@ -452,6 +454,9 @@ def stream_collections(ctx, drv, n):
                 fixed.append((tw, [[names_tw[-1]], [names_tw[0]], names_tw[1:]]))
     except Exception as e:  # noqa
         ctx.notes.append(f"c02.gen_twins not usable for the C03 collections: {type(e).__name__}: {e}")
+    fixed.append(({"a.py": "x = 1\n", "big.py": "x = 0x" + "f" * 6000 + "\n", "c.py": "import a\ny = 2\n",
+                   "chain.py": "if a == 0:\n    pass\n" + "".join(f"elif a == {i}:\n    pass\n" for i in range(1, 1500))},
+                  [["a.py", "c.py"], ["big.py"], ["chain.py", "a.py"]]))
     fixed.append(({"a.py": TEXTS[23], "b.py": "import a\n" + TEXTS[24], "c.py": "import b\nx = 1\n"},
                   [["a.py"], ["a.py", "b.py"], ["b.py", "c.py"]]))
     for ci in range(n + len(fixed)):
@@ -618,6 +623,107 @@ def stream_hashseeds(ctx, n_dirs, n_seeds):
                 break
 
 
+# ---------------------------------------------------------------- (4) several collections in ONE process
+
+SUBPROCESS_COLLECT = r"""
+import sys, io, contextlib
+from pathlib import Path
+import paroxython
+assert paroxython.__file__.startswith(sys.argv[3]), paroxython.__file__
+from paroxython.make_db import TagDatabase
+with contextlib.redirect_stdout(io.StringIO()):
+    db = TagDatabase(Path(sys.argv[1]), ignore_timestamps=True, glob_pattern=sys.argv[4])
+Path(sys.argv[2]).write_text(db.get_json())
+"""
+
+
+def collect_glob(root, glob_pattern):
+    from paroxython.make_db import TagDatabase
+    try:
+        with c11.deadline(c11.DEADLINE):
+            db = c11.quiet(TagDatabase, root, ignore_timestamps=True, glob_pattern=glob_pattern)
+    except c11.Watchdog:
+        return {"exc": "Timeout"}
+    except RecursionError:
+        return {"exc": "RecursionError"}
+    except Exception as e:  # noqa
+        return {"exc": type(e).__name__}
+    return json.loads(db.get_json())
+
+
+def stream_collection_sequences(ctx, n_random):
+    """Several collections made one after the other in THIS process (directory A then directory B, B importing a
+    module name that only A contains; a full collection then a glob sub-collection; both orders): each must be the
+    database the same collection gives in a fresh process."""
+    base = ctx.scratch_dir()
+    repo = str(core.REPO)
+    helper = "def h():\n    return 1\n"
+    scenarios = [
+        # (directories, steps): a step = (directory index, glob pattern)
+        ([{"helper.py": helper, "main.py": "import helper\nprint(helper.h())\n"},
+          {"client.py": "import helper\nx = 1\n", "other.py": "from utils import f\ny = 2\n"}], [(0, ""), (1, "")]),
+        ([{"client.py": "import helper\nx = 1\n"},
+          {"helper.py": helper, "main.py": "import helper\n"}], [(0, ""), (1, ""), (0, "")]),
+        ([{"helper.py": helper, "pkg/tools.py": "t = 0\n", "client.py": "import helper\nimport pkg.tools\nx = 1\n",
+           "zeta.py": "import client\n"}], [(0, ""), (0, "c*.py"), (0, "z*.py"), (0, "")]),
+        ([{"a.py": "import b\n", "b.py": "import a\n"}, {"c.py": "import a\nimport b\n"}, {"a.py": "x = 1\n", "d.py": "import b\n"}],
+         [(0, ""), (1, ""), (2, ""), (1, "")]),
+    ]
+    for _ in range(n_random):
+        mods = ctx.rng.sample(["helper", "utils", "core", "shapes", "vectors"], 3)
+        da = {f"{m}.py": f"{m}_value = 1\n" for m in mods[:2]}
+        da["main.py"] = "".join(f"import {m}\n" for m in mods[:2]) + "print(1)\n"
+        db_ = {"client.py": "".join(f"import {m}\n" for m in ctx.rng.sample(mods, 2)) + "x = 1\n", f"{mods[2]}.py": "z = 3\n"}
+        steps = [(0, ""), (1, "")] if ctx.rng.random() < 0.5 else [(1, ""), (0, ""), (1, "")]
+        if ctx.rng.random() < 0.4:
+            steps.append((0, "m*.py"))
+        scenarios.append(([da, db_], steps))
+    for si, (dirs, steps) in enumerate(scenarios):
+        roots = []
+        for di, files in enumerate(dirs):
+            root = base / f"q{si}" / f"dir{di}"
+            c11.write_dir(root, files)
+            roots.append(root)
+        # references: every step in its own fresh process (started first, they run while we work in-process)
+        procs = []
+        for k, (di, pat) in enumerate(steps):
+            out = base / f"q{si}" / f"fresh{k}.json"
+            env = dict(os.environ, PYTHONPATH=repo, PAROXYTHON_VERIF="1")
+            procs.append((out, subprocess.Popen([sys.executable, "-c", SUBPROCESS_COLLECT, str(roots[di]), str(out), repo, pat],
+                                                env=env, cwd=str(base), stdout=subprocess.PIPE, stderr=subprocess.PIPE)))
+        here = [collect_glob(roots[di], pat) for (di, pat) in steps]
+        for k, ((di, pat), (out, p)) in enumerate(zip(steps, procs)):
+            _, err = p.communicate(timeout=300)
+            if p.returncode != 0:
+                msg = err.decode(errors="replace")[-300:]
+                if "AssertionError" in msg:
+                    raise core.MachineryError("subprocess imported another paroxython: " + msg)
+                fresh = {"exc": msg.strip().splitlines()[-1] if msg.strip() else "?"}
+            else:
+                fresh = json.loads(out.read_text())
+            ctx.count("collections-in-one-process", (json.dumps(dirs, sort_keys=True), tuple(steps), k), nontrivial=k > 0)
+            if here[k] != fresh:
+                d = c11.first_diff(here[k], fresh) if "exc" not in here[k] and "exc" not in fresh else "exception"
+                ctx.violations.append({
+                    "what": f"a collection made after other collections in the same process differs from the same collection "
+                            f"made in a fresh process ({d})",
+                    "replay": {"kind": "collections-in-one-process", "directories": dirs,
+                               "steps": [{"directory": a, "glob": b or "**/*.py"} for a, b in steps], "differing_step": k,
+                               "impl": {"in_process": slim(here[k]), "fresh_process": slim(fresh)},
+                               "model": "makeDb / collectProc are functions of the directory alone", "spec": "equal databases",
+                               "at": d,
+                               "how": "TagDatabase(dir, ignore_timestamps=True, glob_pattern=glob) for each step, in order, "
+                                      "in ONE python process; compare get_json() of the differing step with a fresh process"}})
+                break
+
+
+def slim(js):
+    if "exc" in js:
+        return js
+    return {"importations": js.get("importations"),
+            "import_labels": {p: sorted(n for n in r["labels"] if n.startswith("import")) for p, r in js["programs"].items()}}
+
+
 def run(ctx):
     import warnings
     warnings.simplefilter("ignore")
@@ -637,6 +743,7 @@ def run(ctx):
         stream_cache_pressure(ctx, 1 if quick else 4)
         stream_collections(ctx, drv, 6 if quick else 80)
         stream_hashseeds(ctx, 3 if quick else 16, 3 if quick else 6)
+        stream_collection_sequences(ctx, 2 if quick else 25)
     finally:
         drv.close()
     ctx.cov["proved"] = [t for t, ax in ctx.cov.get("theorems", {}).items() if ax != "DOES-NOT-CHECK"]
